@@ -236,7 +236,7 @@ CFG_TRUST = ['CFG._productions is taken to be a set (what every constructor call
 mixed('C09', ['CFG.get_reachable_symbols', 'CFG.get_unit_pairs', 'CFG.eliminate_unit_productions', 'CFG.remove_useless_symbols', 'fn.get_productions_d'], [],
       'Deductive for get_reachable_symbols (= closure of "occurs in a body of"), get_unit_pairs (= unit-derivability from every variable), eliminate_unit_productions (exactly the non-unit bodies of every unit-reachable variable, and no unit production in the result), remove_useless_symbols (modular: given the assumed contract of get_generating_symbols the result keeps exactly the productions over generating symbols whose head is reachable, and only generating and reachable symbols) and the helper get_productions_d.',
       'contract-based deductive verification (pyvc + z3) of the structural CFG clean-up functions; bounded run-time contract checking for nullable/generating counters, epsilon removal, terminal lifting, binarisation and for the language statements', CFG_TRUST + ['contract of CFG.get_generating_symbols is ASSUMED at the call site in remove_useless_symbols (counter-based worklist: bounded only)'])
-mixed2('C10', [('contracts.cfg', 'CFG.reverse')] + [('contracts.cfg_subst', k) for k in ('CFG.substitute', 'CFG.union', 'CFG.concatenate', 'CFG.get_closure', 'CFG.get_positive_closure')], ['bridge/cfgrev.lean'],
+mixed2('C10', [('contracts.cfg', 'CFG.reverse'), ('contracts.cfg', 'CFG.__invert__')] + [('contracts.cfg_subst', k) for k in ('CFG.substitute', 'CFG.union', 'CFG.concatenate', 'CFG.get_closure', 'CFG.get_positive_closure', 'CFG.__or__', 'CFG.__add__')], ['bridge/cfgrev.lean'],
       'Deductive for CFG.reverse: the result has exactly the productions with reversed bodies, same symbols and start symbol (all grammars); Mathlib ContextFreeGrammar.language_reverse gives the mirror language. '
       'Deductive for CFG.substitute: the result is exactly one renamed copy of the host productions, with every substituted terminal replaced by the renamed start symbol of its grammar, plus one renamed copy of the productions of every substituted grammar, under renamings proved injective with pairwise disjoint ranges (ghost results R0, G, FR) - for every host, every substitution, operands sharing names or being the same object. '
       'Deductive for union, concatenate, get_closure, get_positive_closure: each is proved to be substitute applied to exactly the template grammar of the textbook construction (S -> t0 | t1; S -> t0 t1; S -> t1 | S S | eps; S -> t1 V, V -> V V | t1 | eps) with the operands at the placeholders.',
@@ -244,7 +244,7 @@ mixed2('C10', [('contracts.cfg', 'CFG.reverse')] + [('contracts.cfg_subst', k) f
       CFG_TRUST[:2] + ['language statement of substitute from its proved structure: substitution theorem for context-free languages (Hopcroft-Motwani-Ullman Thm 7.23), assumed, backed by the bounded comparison',
                        'Variable(str(v.value) + "#SUBS#" + str(idx)) is an uninterpreted function of (v, idx) whose idx can be read back from the name (string fact, assumed); Variable("...") / Terminal("...") with different texts are different values',
                        'sequence extensionality is used through explicit instances (valid in the theory of sequences); pointwise facts about list.append and a theory lemma about seq[lo:] are added by the engine',
-                       'the operator forms __or__, __add__, __invert__ (one-line delegations) are not under contract'])
+                       'the operator forms __or__, __add__, __invert__ are proved as delegations with the postcondition of union, concatenate, reverse'])
 mixed('C12', ['CFG.is_empty', 'CFG.get_reachable_symbols'], [],
       'Deductive for get_reachable_symbols (exactly the symbols occurring in a sentential form derivable from the start symbol, by closure induction) and is_empty (modular: start symbol not in the assumed result of get_generating_symbols).',
       'contract-based deductive verification (pyvc + z3) for reachability and the emptiness wrapper; bounded run-time contract checking for generating/nullable sets, finiteness (networkx) and word enumeration', CFG_TRUST[:2] + ['contract of CFG.get_generating_symbols is ASSUMED at the call site in is_empty'])
@@ -264,6 +264,20 @@ mixed2('C14', [('contracts.llone', k) for k in ('LLOneParser._get_first_set_prod
        'contract-based deductive verification (pyvc + z3) of the per-production helper functions; bounded run-time contract checking (textbook least fixpoints, predict sets, tree validation) for the fixpoint loops, the table, the verdict and the parser',
        ['the fixpoint loops get_first_set / get_follow_set (cardinality comparisons on growing sets, SetQueue), get_llone_parsing_table, is_llone_parsable and get_llone_parse_tree are not under contract: that the proved helper functions are combined into the least fixpoints is only covered by the bounded comparison',
         'all cfg.Epsilon() objects are one value (Terminal.__eq__ compares values); a theory lemma about the element of a suffix s[lo:] is stated as an axiom'])
+
+C19_FRAME_JOBS = [('contracts.fa', k) for k in ('ENFA.get_intersection', 'ENFA.get_complement', 'ENFA.get_difference', 'ENFA.reverse', 'ENFA.copy', 'DFA.copy', 'ENFA.to_deterministic',
+                                               'ENFA.remove_epsilon_transitions', 'ENFA.is_empty', 'ENFA.to_fst')] \
+    + [('contracts.cfg', k) for k in ('CFG.reverse', 'CFG.eliminate_unit_productions', 'CFG.remove_useless_symbols', 'CFG.get_reachable_symbols', 'CFG.get_unit_pairs')] \
+    + [('contracts.cfg_subst', k) for k in ('CFG.substitute', 'CFG.union', 'CFG.concatenate', 'CFG.get_closure', 'CFG.get_positive_closure')] \
+    + [('contracts.cfg2pda', 'CFG.to_pda'), ('contracts.pda', 'PDA.to_final_state'), ('contracts.pda', 'PDA.to_empty_stack')] \
+    + [('contracts.fst', k) for k in ('FST.union', 'FST.concatenate', 'FST.kleene_star')]
+mixed2('C19', [('contracts.cfg_cache', 'CFG._get_generating_or_nullable')] + C19_FRAME_JOBS, [],
+       'Deductive, two pieces. (1) CFG._get_generating_or_nullable restores the memoised counters: for every grammar and iteration order, _remaining_lists and _impacts hold on return exactly the values they had right after _set_impacts_and_remaining_lists() (and the values at entry when the tables were already built), so get_generating_symbols / get_nullable_symbols / is_empty / remove_useless_symbols start from the same counters whatever was called before (property anchor "restore of decremented counters"). '
+       '(2) For 26 conversions and operations (boolean operations, reverse, copy, determinisation, epsilon removal, to_fst on automata; reverse, unit elimination, useless-symbol removal, substitute, union, concatenate, closures, to_pda on grammars; to_final_state / to_empty_stack on PDAs; union, concatenate, kleene_star on transducers) the obligations "frame: <operand> unchanged" are discharged: the abstract view (states, alphabet, transitions, start/final; variables, terminals, start symbol, productions) of every operand is the same after the call, also when both operands are one object, and the result is a fresh object.',
+       'contract-based deductive verification (pyvc + z3): restoration of the memoised counters of the CFG analyses, frame obligations of the proved conversions; bounded run-time contract checking (histories of calls compared with fresh equal objects) for everything else',
+       ['the frame obligations speak about the abstract views only: caches outside the view (Regex._enfa, CFG._normal_form, index_cfg_converter attributes on State/Variable/StackSymbol objects, IndexedGrammar.marked) are covered by the bounded histories only',
+        'contract of CFG._set_impacts_and_remaining_lists is ASSUMED (leaves built tables alone; builds tables whose (symbol, index) pairs address existing counters); _remaining_lists is viewed as symbol -> (index -> count)',
+        'what _get_generating_or_nullable computes is not specified in this contract (bounded stand-in of C09/C12)'])
 
 mixed2('C16', [('contracts.fst', k) for k in ('FST.add_transition', 'FST.add_start_state', 'FST.add_final_state', 'Renaming.add_state', 'Renaming.get_name', 'Renaming.add_states',
                                              'FST._add_transitions_to', 'FST._add_start_states_to', 'FST._add_final_states_to', 'FST._add_extremity_states_to', 'FST._copy_into',
